@@ -97,6 +97,7 @@ func TestC18(t *testing.T) {
 	r.Require("mgr_restarts", r.Pick(500, 5000))
 	r.Require("mgr_fresh_managers_compared", r.Pick(20000, 200000))
 	r.Require("mgr_tie_instants", 100)
+	r.Require("listen_histories_with_failed_listens_checked", 1)
 	r.Require("mgr_retro_next_checks", r.Pick(10000, 100000))
 	r.Require("mgr_retro_confirm_checks", r.Pick(10000, 100000))
 	for _, b := range boundaryNames {
